@@ -800,7 +800,9 @@ def _sleep(d):
     s = _sched()
     if s.aborting:
         raise Abort
-    if d <= 0:
+    if d < 0:
+        raise ValueError("sleep length must be non-negative")  # as time.sleep does
+    if d == 0:
         s.yield_point(("sleep0",))
         return
     s.block(("sleep", d), s.now + d)
